@@ -33,61 +33,24 @@ theorem parseStdComplete_lossy_irrelevant (r er : Nat) (o : POpts) (b : Bool) (s
     parseStdComplete r er { o with lossy := b } s = parseStdComplete r er o s := by
   rfl
 
-/-- lossy `binary` never produces the invalid marker, so `MarkerOk` is not needed: it always answers with
-`roundNE (mantissa · base^exponent)` -/
+/-- lossy `binary` always answers, with `roundNE (mantissa · base^exponent)` -/
 theorem lossy_pow2_exact {F : FTy} {p eb : Nat} (lay : Layout F p eb) {base : Nat} (hb : IsPow2 base) (n : Num)
     (hm : n.mantissa < 2 ^ 64) (he : ExpInRange n.exponent) :
     ∃ fp, Binary.binary F base n true = .ok fp ∧ 0 ≤ fp.exp ∧
       extendedToFloat F fp =
         roundNE F.fmt (powFrac base n.exponent n.mantissa).1 (powFrac base n.exponent n.mantissa).2 := by
   obtain ⟨fp, h1, h2⟩ := binary_valid lay hb n true hm he.1 he.2 (Or.inr rfl)
-  refine ⟨fp, h1, h2, ?_⟩
-  obtain ⟨lg, hlg⟩ := isPow2Base_of base hb
-  -- MarkerOk is irrelevant when the undecided branch cannot be taken: reprove via the generic lemma
-  by_cases hmk : MarkerOk F base n
-  · exact binary_exact lay hb n true hm he.1 he.2 hmk h1 h2
-  · -- power2 ≥ 32768: the value overflows and both sides are +∞
-    rw [binary_eq] at h1
-    by_cases h0 : n.mantissa = 0
-    · rw [if_pos h0] at h1
-      injection h1 with h1; subst h1
-      rw [h0, powFrac_zero, ext_zero lay]
-    · rw [if_neg h0] at h1
-      obtain ⟨hc, hm1, hm2, hshl⟩ := clz_norm h0 hm
-      have hpw := calculatePower2_eq lay hlg n.exponent he.1 he.2 (clz64 n.mantissa) (by omega)
-      unfold MarkerOk at hmk
-      simp only [hshl] at h1
-      generalize hP : Binary.calculatePower2 F base n.exponent (clz64 n.mantissa) = power2 at *
-      have hbig : 32768 ≤ power2 := by
-        have : invalidFp = -32768 := rfl
-        rw [this] at hmk; omega
-      rw [if_neg (by omega)] at h1
-      have hu : binUndecided (n.mantissa * 2 ^ clz64 n.mantissa) (Binary.calculateShift F power2).toNat true
-          n.manyDigits = false := by simp [binUndecided]
-      rw [hu] at h1
-      simp only [Bool.false_eq_true, if_false] at h1
-      injection h1 with h1; subst h1
-      rw [calculateShift_eq lay power2]
-      obtain ⟨_, _, hs0, hs64, _⟩ := quot_bounds lay.hp (by have := lay.hp64; have := lay.heb; omega)
-        hm1 hm2 power2 (by omega)
-      obtain ⟨_, hbits⟩ := round_bits lay (n.mantissa * 2 ^ clz64 n.mantissa) power2
-        (fun _ _ _ => binRoundUp (n.mantissa * 2 ^ clz64 n.mantissa) (shiftOf p power2)) hm1 hm2 (by omega)
-      rw [hbits]
-      have hup := binary_up (n.mantissa * 2 ^ clz64 n.mantissa) (shiftOf p power2) hs0 hs64 hm2
-      simp only [] at hup
-      unfold binRoundUp
-      rw [hup, hlg.1]
-      exact (roundNE_norm lay lg n.mantissa (clz64 n.mantissa) n.exponent hm1 hm2 hc power2 hpw (by omega)).symm
+  exact ⟨fp, h1, h2, binary_exact lay hb n true hm he.1 he.2 h1 h2⟩
 
-/-- whenever the non-lossy `binary` decides (and its marker is sound), lossy and non-lossy agree bit for bit -/
+/-- whenever the non-lossy `binary` decides, lossy and non-lossy agree bit for bit -/
 theorem lossy_pow2_agrees {F : FTy} {p eb : Nat} (lay : Layout F p eb) {base : Nat} (hb : IsPow2 base) (n : Num)
-    (hm : n.mantissa < 2 ^ 64) (he : ExpInRange n.exponent) (hmk : MarkerOk F base n)
+    (hm : n.mantissa < 2 ^ 64) (he : ExpInRange n.exponent)
     {fp fpl : ExtendedFloat80} (h : Binary.binary F base n false = .ok fp) (hv : 0 ≤ fp.exp)
     (hl : Binary.binary F base n true = .ok fpl) :
     extendedToFloat F fpl = extendedToFloat F fp := by
   obtain ⟨fp', h1, _, h3⟩ := lossy_pow2_exact lay hb n hm he
   rw [hl] at h1; injection h1 with h1; subst h1
-  rw [h3, binary_exact lay hb n false hm he.1 he.2 hmk h hv]
+  rw [h3, binary_exact lay hb n false hm he.1 he.2 h hv]
 
 /-- **`lossy_pow2_neighbour`** (**complete**): for a truncated mantissa `M ≥ 2^p` (a `u64_step`-digit mantissa
 has at least 55 bits) and any true value `x ∈ [M, M+1)·base^e`, the lossy answer is `roundNE x` or the pattern
